@@ -90,7 +90,7 @@ def run(ctx):
     ctx.samples.append({"first_point": json.loads(open(pre + ".obs").readline())["point"]})
     ctx.rule = ("fault lattice {signature kind x key-set shape x iss {right, foreign, missing, right+'/', upper-cased, right+suffix, right minus last character} x aud shape (single string, one element, + configured trusted audience, + named untrusted, "
                 "+ empty string, + the deployment's resource indicator, client id twice, trusted + untrusted, + the issuer, trusted first, without the client id, none) "
-                "x resource indicator configured / not x exp x iat x nbf x nonce x sub x sid x sid-required x acr x configured acr x response shape x "
+                "x resource indicator configured / not x exp x iat x nbf x nonce x sub x sid x sid-required x acr (incl. a substring, an extension and another letter case of the configured non-ID-porten level) x configured acr x response shape x "
                 "cached-JWKS freshness x sub-second clock offset}: baseline, every single deviation and every pair of deviations (thorough: triples with six of the dimensions); tokens are assembled and signed "
                 "by hand (RS256 / PS256 / ES256 / HS256-over-public-key / none)")
     ctx.assumptions += ["ideal signatures (real RSA / ECDSA / HMAC are exercised but not modelled)", "jwx v2.1.4 behaviour is modelled, tied by this lattice"]
